@@ -1,6 +1,6 @@
 """Property -> rules."""
 from .prog import Program
-from . import rules_cg, lalr, rules_dispatch, rules_wrap, rules_mem, rules_state, rules_dstr, rules_recurse, rules_misc, rules_critic, rules_esc, rules_wrapper, rules_anchor, rules_sink
+from . import rules_cg, lalr, rules_dispatch, rules_wrap, rules_mem, rules_state, rules_dstr, rules_recurse, rules_misc, rules_critic, rules_esc, rules_wrapper, rules_anchor, rules_sink, rules_zip
 
 _progs = {}
 
@@ -123,7 +123,14 @@ def c08(chk, tier):
     rules_esc.r_escpair(P(), chk)
 
 
+def c09(chk, tier):
+    chk.explanation = "Static: R-ZIPTABLE member tables / cross-literal agreement / finalisation; R-PTRPTR."
+    rules_zip.r_ziptable(P(), chk)
+    rules_wrap.r_ptrptr(P(), chk)
+
+
 PROPS = {
+    "C09": ("other", c09),
     "C08": ("other", c08),
     "C10": ("other", c10),
     "C11": ("other", c11),
